@@ -232,7 +232,7 @@ def handle_url(f, backend):
     op = f[0]
     yarl = Y()
     URL = yarl.URL
-    if op == "orc":
+    if op == "orc" or op == "tag":
         return "ok"
     if op == "np":
         return enc(yarl._path.normalize_path(dec(f[1])))
@@ -276,7 +276,7 @@ def handle_url(f, backend):
         u, v = get(f[1]), get(f[2])
         if u is None or v is None:
             return "!dead"
-        return enc_bool(u == v) + enc_bool(u < v) + enc_bool(u <= v) + enc_bool(u > v) + enc_bool(u >= v)
+        return enc_bool(u == v) + enc_bool(u < v) + enc_bool(u <= v) + enc_bool(u > v) + enc_bool(u >= v) + enc_bool(hash(u) == hash(v))
     if op == "rt":
         u = get(f[2])
         if u is None:
